@@ -94,12 +94,63 @@ template<typename T> static void legacy_kll_single(int rep) {
   sig(img_hash(w.b));
 }
 
+// ---------------------------------------------------------------- classic quantiles: the accepted forms of an EMPTY serial-version-3 image
+// check_header_validity lists: preLongs 1 or 2, compact flag set or not (8 bytes are read in every case)
+static void legacy_quantiles_empty_v3(int rep) {
+  const uint8_t pre = rep & 1 ? 2 : 1; const bool compact = rep & 2; const uint16_t k = rep & 4 ? 128 : 16;
+  Wr w; w.u8(pre).u8(3).u8(8).u8(uint8_t(4 | (compact ? 8 : 0))).u16(k).u16(0);
+  if (pre == 2) w.u64(0);   // second preamble long (n = 0)
+  for (int stream = 0; stream < 2; ++stream) {
+    const std::string P = stream ? "stream" : "bytes";
+    const std::string key = "legacy|quantiles|serial-version-3-empty-forms|" + P + "|";
+    try {
+      auto s = QuantFam<double>::read(w.b, stream != 0);
+      VF_CHECK(s.is_empty() && s.get_k() == k && s.get_n() == 0, key + "content", "preLongs=" + std::to_string(pre) + " compact=" + std::to_string(compact));
+      s.update(1.5);
+      VF_CHECK(s.get_n() == 1 && s.get_min_item() == 1.5, key + "usable-after-read", "");
+    } catch (const std::exception& e) { checked(); fail(key + "deserialize-threw", std::string(e.what()) + " preLongs=" + std::to_string(pre) + " compact=" + std::to_string(compact)); }
+    count("legacy_quantiles_empty_" + P);
+  }
+  sig(img_hash(w.b));
+}
+
+// ---------------------------------------------------------------- KLL: several items in one level, full layout synthesised
+// byte0 preInts=5 1 serVer=1 2 family=15 3 flags 4-5 k 6 m=8 7 unused | u64 n | u16 minK u8 numLevels=1 u8 unused | u32 levels[0]=k-n | min | max | items
+template<typename T> static void legacy_kll_one_level(int rep) {
+  Rng r(0x4B22 + rep);
+  const uint16_t k = rep & 1 ? 200 : 20;
+  const uint32_t n = 2 + uint32_t(r.below(k - 2));
+  const bool sorted = rep & 2;
+  std::vector<T> items; for (uint32_t i = 0; i < n; ++i) items.push_back(static_cast<T>(double(r.below(100000)) * 0.25 - 7000.0));
+  if (sorted) std::sort(items.begin(), items.end());
+  const T mn = *std::min_element(items.begin(), items.end()), mx = *std::max_element(items.begin(), items.end());
+  auto put = [](Wr& w, T v) { if (sizeof(T) == 8) w.f64(double(v)); else w.f32(float(v)); };
+  Wr w; w.u8(5).u8(1).u8(15).u8(sorted ? 2 : 0).u16(k).u8(8).u8(0).u64(n).u16(k).u8(1).u8(0).u32(uint32_t(k) - n);
+  put(w, mn); put(w, mx); for (T v : items) put(w, v);
+  std::vector<IW<T>> want; for (T v : items) want.push_back({v, 1}); sort_iw(want);
+  for (int stream = 0; stream < 2; ++stream) {
+    const std::string P = stream ? "stream" : "bytes";
+    const std::string key = "legacy|kll|one-level-full-layout|" + P + "|";
+    try {
+      const auto s = KllFam<T>::read(w.b, stream != 0);
+      VF_CHECK(s.get_k() == k && s.get_n() == n && s.get_num_retained() == n && !s.is_estimation_mode(), key + "counts", "");
+      VF_CHECK(s.get_min_item() == mn && s.get_max_item() == mx, key + "min-max", "");
+      VF_CHECK(KllFam<T>::write(s, false) == w.b, key + "reserialized-differs", "");   // before any query sorts level zero
+      VF_CHECK(view_pairs<T>(s) == want, key + "items", "");
+    } catch (const std::exception& e) { checked(); fail(key + "deserialize-threw", e.what()); }
+    count("legacy_kll_one_level_" + P);
+  }
+  sig(img_hash(w.b));
+}
+
 std::vector<Extra>& extras() {
   static std::vector<Extra> x;
   static bool init = false;
   if (!init) {
     init = true;
     for (int form = 1; form <= 3; ++form) for (int rep = 0; rep < 8; ++rep) x.push_back(Extra{"legacy quantiles form " + std::to_string(form), [form, rep]() { legacy_quantiles_case(form, rep); }});
+    for (int rep = 0; rep < 8; ++rep) x.push_back(Extra{"legacy quantiles empty v3", [rep]() { legacy_quantiles_empty_v3(rep); }});
+    for (int rep = 0; rep < 4; ++rep) { x.push_back(Extra{"legacy kll one level float", [rep]() { legacy_kll_one_level<float>(rep); }}); x.push_back(Extra{"legacy kll one level double", [rep]() { legacy_kll_one_level<double>(rep); }}); }
     for (int rep = 0; rep < 4; ++rep) { x.push_back(Extra{"legacy kll float", [rep]() { legacy_kll_single<float>(rep); }}); x.push_back(Extra{"legacy kll double", [rep]() { legacy_kll_single<double>(rep); }}); }
   }
   return x;
